@@ -62,7 +62,7 @@ func (c *c07) Assumptions() []string {
 }
 
 func (c *c07) ProbeNames() []string {
-	return []string{"window_recentred", "window_recentred_backward", "window_clamped_at_file_end", "file_shorter_than_window", "empty_file", "read_longer_than_window", "read_straddles_2048_multiple", "engine_file_larger_than_window", "engine_matches_compared", "engine_match_straddles_2048_multiple", "two_readers_interleaved", "content_starts_with_bom"}
+	return []string{"window_recentred", "window_recentred_backward", "window_clamped_at_file_end", "file_shorter_than_window", "empty_file", "read_longer_than_window", "read_straddles_2048_multiple", "engine_file_larger_than_window", "engine_matches_compared", "engine_match_straddles_2048_multiple", "two_readers_interleaved", "content_starts_with_bom", "engine_file_64k_or_more", "reader_file_64k_or_more"}
 }
 
 func (c *c07) SweepPrefix(phase string, i uint64) []uint64 {
@@ -121,7 +121,7 @@ func (c *c07) Init(env *Env) error {
 var c07sizes = []int{0, 1, 2, 3, 2047, 2048, 2049, 4095, 4096, 4097, 6143, 6144, 6145, 8191, 8192, 8193, 12287, 12288, 12289}
 
 func drawSize(t *Tape, maxRandom int) int {
-	k := t.Draw(len(c07sizes) + 6)
+	k := t.Draw(len(c07sizes) + 7)
 	if k < len(c07sizes) {
 		return c07sizes[k]
 	}
@@ -132,6 +132,16 @@ func drawSize(t *Tape, maxRandom int) int {
 		return t.Range(65, 2046)
 	case 3:
 		return t.Range(2050, 4094)
+	case 4:
+		// now and then far above the usual sizes: around 64 KiB, 128 KiB, 256 KiB
+		if t.Draw(6) == 1 {
+			huge := []int{65535, 65536, 65537, 98304, 131071, 131073, 262145}
+			if maxRandom < 20000 {
+				huge = huge[:3]
+			}
+			return huge[t.Draw(len(huge))]
+		}
+		return t.Range(4098, maxRandom)
 	default:
 		return t.Range(4098, maxRandom)
 	}
@@ -225,7 +235,7 @@ func (c *c07) runReader(ctx *RunCtx) *RunResult {
 	d := &c07readerDesc{Size: size, Salt: salt}
 	simrt.Reset(1, soloPlan(t, treeSpawnsCached(c.env), 20000), 1)
 	simrt.Solo()
-	simrt.OpStart(4000000)
+	simrt.OpStart(40000000)
 	evh := mix(uint64(size), salt)
 	for _, r := range rds {
 		path := filepath.Join(ctx.World, r.name)
@@ -371,6 +381,9 @@ func (c *c07) runReader(ctx *RunCtx) *RunResult {
 	ctx.Count("window_clamped_at_file_end", uint64(clamped))
 	if size < 4096 {
 		ctx.Count("file_shorter_than_window", 1)
+	}
+	if size >= 65535 {
+		ctx.Count("reader_file_64k_or_more", 1)
 	}
 	if size == 0 {
 		ctx.Count("empty_file", 1)
@@ -524,7 +537,12 @@ func (c *c07) runEngine(ctx *RunCtx) *RunResult {
 	simrt.Reset(1, soloPlan(t, treeSpawnsCached(c.env), 200000), uint64(t.Draw(1<<20)))
 	simrt.Solo()
 	rand.Seed(5)
-	fs, ms, ok := c.compare(ctx, res, c.progs[pi], it.Src, path, content, 6000000)
+	budget := uint64(6000000)
+	if size > 20000 {
+		budget = 60000000
+		ctx.Count("engine_file_64k_or_more", 1)
+	}
+	fs, ms, ok := c.compare(ctx, res, c.progs[pi], it.Src, path, content, budget)
 	res.Steps = simrt.Steps
 	simrt.Stop()
 	if size > 4096 {
